@@ -47,7 +47,7 @@ var targets = []string{
 	gm + "/topicalias/fifo",
 	gm + "/pkg/packets",
 	gm + "/plugin/auth",
-	// gm + "/plugin/federation", (enabled with the federation checks)
+	gm + "/plugin/federation",
 }
 
 // subst is one R6 rule: calls to (pkg, recv, name) become calls to newPkg.newName; a method call
@@ -70,7 +70,7 @@ var substs = []subst{
 	{pkg: "os", name: "OpenFile", newPath: "verifsim/simfs", newPkg: "simfs", newName: "OpenFile", onlyIn: gm + "/plugin/auth"},
 	{pkg: "os", name: "Remove", newPath: "verifsim/simfs", newPkg: "simfs", newName: "Remove", onlyIn: gm + "/plugin/auth"},
 	{pkg: "github.com/hashicorp/serf/serf", name: "Create", newPath: "verifsim/simfed", newPkg: "simfed", newName: "SerfCreate", onlyIn: gm + "/plugin/federation"},
-	{pkg: "net", name: "Listen", newPath: "verifsim/simnet", newPkg: "simnet", newName: "Listen", onlyIn: gm + "/plugin/federation"},
+	{pkg: "net", name: "Listen", newPath: "verifsim/simfed", newPkg: "simfed", newName: "Listen", onlyIn: gm + "/plugin/federation"},
 	{pkg: "google.golang.org/grpc", name: "NewServer", newPath: "verifsim/simfed", newPkg: "simfed", newName: "NewGRPCServer", onlyIn: gm + "/plugin/federation"},
 	{pkg: "google.golang.org/grpc", name: "Dial", newPath: "verifsim/simfed", newPkg: "simfed", newName: "Dial", onlyIn: gm + "/plugin/federation"},
 	{pkg: "github.com/google/uuid", name: "New", newPath: "verifsim/simfed", newPkg: "simfed", newName: "UUID", onlyIn: gm + "/plugin/federation"},
@@ -226,6 +226,7 @@ func (r *rw) file_(f *ast.File) bool {
 	// R6 first: whole-file callee substitution
 	if !r.disabled["R6"] {
 		r.substCalls(f)
+		r.substTypes(f)
 	}
 	// R1
 	if !r.disabled["R1"] {
@@ -297,6 +298,37 @@ func (r *rw) file_(f *ast.File) bool {
 	}
 	f.Decls = append(decls, f.Decls...)
 	return true
+}
+
+// typeSubsts: references to the named type (pkg, name) become newPkg.newName (R6, types).
+var typeSubsts = []subst{
+	{pkg: "google.golang.org/grpc", name: "ClientConn", newPath: "verifsim/simfed", newPkg: "simfed", newName: "ClientConn", onlyIn: gm + "/plugin/federation"},
+}
+
+// substTypes implements R6 for type references.
+func (r *rw) substTypes(f *ast.File) {
+	ast.Inspect(f, func(n ast.Node) bool {
+		se, ok := n.(*ast.SelectorExpr)
+		if !ok {
+			return true
+		}
+		tn, ok := r.info.Uses[se.Sel].(*types.TypeName)
+		if !ok || tn.Pkg() == nil {
+			return true
+		}
+		for _, s := range typeSubsts {
+			if s.pkg != tn.Pkg().Path() || s.name != tn.Name() || (s.onlyIn != "" && s.onlyIn != r.pkg) {
+				continue
+			}
+			se.X = ast.NewIdent(s.newPkg)
+			se.Sel = ast.NewIdent(s.newName)
+			r.need[s.newPath] = s.newPkg
+			r.changed = true
+			r.stats["R6"]++
+			break
+		}
+		return true
+	})
 }
 
 // substCalls implements R6.
